@@ -179,7 +179,7 @@ def eval_tb(ctx, c, outs):
             ok = True
         elif isinstance(mod, tuple):
             # the real generator never applies the row key when no block is kept: an invalid row key goes unnoticed
-            ok = op.startswith('drop') and not real['cols'] and mod[1] == 'lookup'
+            ok = (op.startswith('drop') or op == 'extract') and not real['cols'] and mod[1] == 'lookup'
         else:
             if op == 'ufunc':
                 mod['cols'] = [[t.lstrip('~') for t in col] for col in mod['cols']]
@@ -187,9 +187,7 @@ def eval_tb(ctx, c, outs):
                 ok = mod['dtypes'] == real['dtypes']
             else:
                 ok = mod['cols'] == real['cols'] and mod['dtypes'] == real['dtypes']
-                # with no column left the real class keeps the OLD row count (recorded finding F28); the model mirrors it for extract
-                if real['cols'] or op == 'extract':
-                    ok = ok and mod['rows'] == real['rows']
+                ok = ok and mod['rows'] == real['rows']
             if op == 'consolidate' and ok:
                 ok = mod['layout'] == real['layout']
     if not ok:
@@ -209,6 +207,7 @@ def eval_layout(ctx, c):
         ctx.count('layout_error_results')
     if ra != rb:
         fails.append(Failure('oracle', f'{c["op"]}{c["args"]} differs between layouts {c["la"]} and {c["lb"]}: {short(ra)} vs {short(rb)}', c,
+                             finding=ops.classify_layout_difference(c, ra, rb),
                              detail={'op': c['op'], 'a': short(ra, 400), 'b': short(rb, 400)}))
     return fails
 
@@ -265,8 +264,7 @@ def eval_coher(ctx, c):
 
 
 def classify(f):
-    d = f.detail or {}
-    return ops.classify_layout_failure(f.case, d) if f.case.get('k') == 'layout' else None
+    return f.finding
 
 
 def search(ctx):
